@@ -179,3 +179,50 @@ Theorem C05_source_header_sets :
   (forall stored fresh, src_update_stored_headers stored fresh = update_stored_headers stored fresh).
 Proof. split; [exact tie_hop_by_hop_headers|split; [exact tie_remove_hop_by_hop|exact tie_update_stored_headers]]. Qed.
 Print Assumptions C05_source_header_sets.
+
+(* ---------- whole histories ---------- *)
+(* For every sequential history from the empty store: an answer given without contacting the origin is the synthesised 504, or
+   it has the status and the body of a full (non-304) reply that a logged origin call of the history returned, and — for every
+   field name other than Age, the two status fields and the names a qualified no-cache of the stored response lists — exactly
+   the field values of a stored entry e whose header block is, in turn (Src_header), that reply's block with its Date repaired
+   and its hop-by-hop fields removed, or such a block with the fields of the 304s of other logged calls merged in. *)
+From HC.Proofs Require Import SrcProofs.
+Lemma served_form_fields e s v qualified n :
+  beq n (canonical_key (bs "Age")) = false -> beq n (canonical_key status_header) = false ->
+  beq n (canonical_key from_cache_header) = false ->
+  (forall fld, match qualified with Some fs => In fld fs | None => False end -> beq n (canonical_key fld) = false) ->
+  hvalues n (apply_status s (hset (bs "Age") v (strip_qualified qualified (e_hdr e)))) = hvalues n (e_hdr e).
+Proof.
+  intros Ha Hs Hf Hq. unfold apply_status.
+  assert (H1 : hvalues n (hset status_header (status_value s) (hset (bs "Age") v (strip_qualified qualified (e_hdr e)))) = hvalues n (e_hdr e)).
+  { rewrite hvalues_hset_other by exact Hs. rewrite hvalues_hset_other by exact Ha. apply hvalues_strip_qualified, Hq. }
+  destruct (status_legacy s); [rewrite hvalues_hset_other by exact Hf|rewrite hvalues_hdel_other by exact Hf]; exact H1.
+Qed.
+
+Theorem C05_history : forall cfg h t0 script k gq obs r,
+  let all := run_history cfg h (init_world t0 script) in
+  let L := flat_map (fun x => x_events x ++ x_bg_events x) all in
+  nth_error h k = Some gq -> nth_error all k = Some obs -> x_result obs = Done (OResp r) -> ~ has_call (x_events obs) ->
+  r = response_504 \/
+  exists e q0 a b r0,
+    Src (GXl L) e /\ GXl L q0 a b r0 /\ p_status r0 <> 304 /\
+    p_status r = p_status r0 /\ p_body r = p_body r0 /\
+    forall n, beq n (canonical_key (bs "Age")) = false -> beq n (canonical_key status_header) = false ->
+              beq n (canonical_key from_cache_header) = false ->
+              (forall fld, match hit_qualified e with Some fs => In fld fs | None => False end -> beq n (canonical_key fld) = false) ->
+              hvalues n (p_hdr r) = hvalues n (e_hdr e).
+Proof.
+  intros cfg h t0 script k gq obs r all L Hk Ho Hr Hnc.
+  destruct (history_safeX L cfg h (init_world t0 script)) as [_ H]; [intros k' e' E; discriminate|apply incl_refl|].
+  destruct (proj1 (H k gq obs (OResp r) Hk Ho Hr) Hnc) as [E|(e & Hs & Hd & E)]; [left; injection E as ->; reflexivity|right].
+  destruct (Src_body _ _ Hs) as (q0 & a & b & r0 & Hg & Hn & Hst & Hb).
+  exists e, q0, a, b, r0. split; [exact Hs|split; [exact Hg|split; [exact Hn|]]].
+  unfold served_outcome in E.
+  assert (Hr' : exists s v, r = response_of (entry_with_hdr e (apply_status s (hset (bs "Age") v (strip_qualified (hit_qualified e) (e_hdr e)))))).
+  { destruct Hd as [Hd|Hd]; rewrite Hd in E.
+    - unfold serve_from_cache in E. injection E as E'. eexists _, _. exact E'.
+    - injection E as E'. eexists _, _. exact E'. }
+  destruct Hr' as (s & v & ->). cbn [response_of entry_with_hdr p_status p_body p_hdr e_status e_body e_hdr].
+  split; [exact Hst|split; [exact Hb|]]. intros n Ha Hs' Hf Hq. apply served_form_fields; assumption.
+Qed.
+Print Assumptions C05_history.
